@@ -4,8 +4,14 @@
   the only state shared between requests is the caches; from the point of view of one request,
   everything other threads (or other, interleaved or abandoned, generators) do shows up as changes
   of the shared cache state between two of its own cache operations.
+  Second part (`interleaved_requests_sequential`): the parallel composition itself.  The cached engine is written as a
+  resumption that stops at every cache operation (Abnf/Resume.lean; `run_lparseP`: running it IS `lparseC`); any number of
+  requests are interleaved by an ARBITRARY schedule of single cache operations against one shared sound cache
+  (Abnf/Interleave.lean); every request that finishes returns the sequential (cache-free) result, and requests abandoned at
+  any point leave a sound cache, so every later request is answered correctly too.
 -/
 import Abnf.Theorems.C08
+import Abnf.Interleave
 namespace Abnf.C17
 
 /-- **Rely ⇒ result.**  Let `env n` be ANY change of the shared caches that happens before the `n`-th
@@ -38,6 +44,116 @@ theorem request_is_admissible_interference (G : Grammar) (repOf : Nat → Option
     (f : Nat) (s : Src) (e : Expr) (he : CidsOk repOf e) (i : Nat) (st : LState) (hinv : WInv (GoodVal G repOf) st) :
     WInv (GoodVal G repOf) (lparseC lruOps G f s e i st).2 :=
   ((lparseC_sand lruOps G repOf _ (lruOps_sound' _) hG f s e he) i st hinv).1
+
+/-! ### the parallel composition, mechanised -/
+
+/-- every request, as a resumption, is `Safe`: whatever (good) answers its lookups get from the shared cache, it ends with
+the cache-free result and stores only good values -/
+theorem request_safe (G : Grammar) (repOf : Nat → Option (Nat × Option Nat × Expr)) (hG : GCidsOk repOf G)
+    (f : Nat) (s : Src) (e : Expr) (he : CidsOk repOf e) (i : Nat) (hne : lparse G f s e i ≠ .oof) :
+    Safe (GoodVal G repOf) (lparse G f s e i) (lparseP G f s e i) := by
+  refine safe_of_universal (GoodVal G repOf) _ _ ?_
+  intro σ ops Inv hS st hinv
+  rw [run_lparseP]
+  exact lparseC_eq_lparse ops G repOf Inv hS hG f s e he i st hinv hne
+
+/-- a request of the interleaved run: source, expression, offset -/
+structure Request where
+  s : Src
+  e : Expr
+  i : Nat
+
+/-- the threads of a set of requests: each one's resumption, paired with the sequential (cache-free) answer -/
+def threads (G : Grammar) (f : Nat) (reqs : List Request) : List (Prog Res × Res) :=
+  reqs.map (fun q => (lparseP G f q.s q.e q.i, lparse G f q.s q.e q.i))
+
+/-- **Concurrent and interleaved parsing gives the sequential results.**  Any number of requests over the same grammar,
+ANY schedule (a list of thread indices, each entry lets that thread perform one cache operation - pre-emption between
+any two cache operations; a thread that is never scheduled again is an abandoned request), one shared cache (any sound
+implementation; `interleaved_requests_sequential_lru` for the LRU `ParseCache` with any limits), started in any sound
+state: (1) every thread that has finished holds exactly its sequential result, (2) every thread still running will
+deliver its sequential result however it is continued, (3) the shared cache is sound - no request has observed or left
+behind another's partial state. -/
+theorem interleaved_requests_sequential {σ : Type} (ops : CacheOps σ) (Inv : σ → Prop) (G : Grammar)
+    (repOf : Nat → Option (Nat × Option Nat × Expr)) (hS : CacheSound ops Inv (GoodVal G repOf)) (hG : GCidsOk repOf G)
+    (f : Nat) (reqs : List Request) (hreq : ∀ q ∈ reqs, CidsOk repOf q.e ∧ lparse G f q.s q.e q.i ≠ .oof)
+    (sched : List Nat) (st : σ) (hinv : Inv st) :
+    (∀ t ∈ (runSchedule ops sched (threads G f reqs) st).1, ∀ a, t.1 = .done a → a = t.2) ∧
+    AllSafe (GoodVal G repOf) (runSchedule ops sched (threads G f reqs) st).1 ∧
+    Inv (runSchedule ops sched (threads G f reqs) st).2 := by
+  have h0 : AllSafe (GoodVal G repOf) (threads G f reqs) := by
+    intro t ht
+    simp only [threads, List.mem_map] at ht
+    obtain ⟨q, hq, rfl⟩ := ht
+    exact request_safe G repOf hG f q.s q.e (hreq q hq).1 q.i (hreq q hq).2
+  obtain ⟨h1, h2⟩ := schedule_safe hS sched _ st h0 hinv
+  refine ⟨?_, h1, h2⟩
+  intro t ht a ha
+  have := h1 t ht
+  rw [ha] at this
+  exact this
+
+/-- the expected result of every thread never changes: it is the sequential result of the request it was started for -/
+theorem schedule_keeps_expected {σ : Type} (ops : CacheOps σ) : ∀ (sched : List Nat) (ts : List (Prog Res × Res)) (st : σ),
+    ((runSchedule ops sched ts st).1).map (·.2) = ts.map (·.2) := by
+  intro sched
+  induction sched with
+  | nil => intro ts st; rfl
+  | cons t sched ih =>
+    intro ts st
+    simp only [runSchedule]
+    cases ht : ts[t]? with
+    | none => exact ih ts st
+    | some pr =>
+      obtain ⟨p, r⟩ := pr
+      simp only
+      rw [ih]
+      have hlt : t < ts.length := by
+        rcases Nat.lt_or_ge t ts.length with h | h
+        · exact h
+        · rw [List.getElem?_eq_none h] at ht; cases ht
+      have hr : ts[t].2 = r := by
+        have := List.getElem?_eq_getElem hlt
+        rw [this] at ht
+        have h' : ts[t] = (p, r) := by simpa using ht
+        rw [h']
+      rw [List.map_set]
+      apply List.ext_getElem
+      · simp
+      · intro n h1 h2
+        by_cases hn : t = n
+        · subst hn; simp [hr]
+        · simp [hn]
+
+/-- the same for the faithful LRU `ParseCache`s (one per repetition, any limits, any eviction pattern) -/
+theorem interleaved_requests_sequential_lru (G : Grammar) (repOf : Nat → Option (Nat × Option Nat × Expr)) (hG : GCidsOk repOf G)
+    (f : Nat) (reqs : List Request) (hreq : ∀ q ∈ reqs, CidsOk repOf q.e ∧ lparse G f q.s q.e q.i ≠ .oof)
+    (sched : List Nat) (st : LState) (hinv : WInv (GoodVal G repOf) st) :
+    (∀ t ∈ (runSchedule lruOps sched (threads G f reqs) st).1, ∀ a, t.1 = .done a → a = t.2) ∧
+    WInv (GoodVal G repOf) (runSchedule lruOps sched (threads G f reqs) st).2 := by
+  obtain ⟨h1, _, h3⟩ := interleaved_requests_sequential lruOps _ G repOf (lruOps_sound' _) hG f reqs hreq sched st hinv
+  exact ⟨h1, h3⟩
+
+/-- after ANY interleaved run (finished or abandoned requests), a further request run to completion is answered with
+the sequential result -/
+theorem request_after_interleaving (G : Grammar) (repOf : Nat → Option (Nat × Option Nat × Expr)) (hG : GCidsOk repOf G)
+    (f : Nat) (reqs : List Request) (hreq : ∀ q ∈ reqs, CidsOk repOf q.e ∧ lparse G f q.s q.e q.i ≠ .oof)
+    (sched : List Nat) (st : LState) (hinv : WInv (GoodVal G repOf) st)
+    (s : Src) (e : Expr) (he : CidsOk repOf e) (i : Nat) (hne : lparse G f s e i ≠ .oof) :
+    (lparseC lruOps G f s e i (runSchedule lruOps sched (threads G f reqs) st).2).1 = lparse G f s e i :=
+  (C08.request_transparent G repOf hG f s e he i _
+    (interleaved_requests_sequential_lru G repOf hG f reqs hreq sched st hinv).2 hne).1
+
+/-- non-vacuity: two requests on an ambiguous nested repetition with a limit-1 cache, round-robin schedule of 40 steps:
+both finish, each with its own sequential result -/
+example :
+    let G : Grammar := #[⟨"r", some (.rep 0 0 none (.rep 1 1 (some 2) (.lit [97] false))), none⟩]
+    let st0 : LState := ⟨0, fun _ => PCache.new (some 1) 0⟩
+    let reqs : List Request := [⟨[97, 97, 97], .ref 0, 0⟩, ⟨[97, 97], .ref 0, 1⟩]
+    let sched := (List.range 40).map (· % 2)
+    ((runSchedule lruOps sched (threads G 10 reqs) st0).1).all (fun t =>
+      match t.1 with | .done a => decide (a = t.2) | _ => false) = true := by
+  decide
 
 /-- non-vacuity: an environment that wipes a cache before every second operation -/
 example :
